@@ -42,7 +42,7 @@ def BOUNDS(tier):
 
 FAMILIES = [("hexahedron", "3d"), ("quad", "ps"), ("tetra", "3d"), ("quad8", "ps"), ("quad", "axi"), ("triangle6", "ps")]
 E2_MATERIALS = ["LinearElastic", "NeoHooke", "NeoHookeCompressible", "mixed-ThreeField", "NearlyIncompressibleBody", "OgdenRoxburgh", "plasticity", "tt-visco"]
-EXTRA = ["none", "pressure", "pointload", "item-x0", "item-x0.5"]  # item-x<m>: a second, stiff solid body on the same field scaled by the item multiplier m (0: switched off)
+EXTRA = ["none", "pressure", "pointload", "item-x0", "item-x0.5", "overlap"]  # overlap: a second boundary prescribes the SAME unknowns with the same (non-zero) values as the moved one (two plates moving together)  # item-x<m>: a second, stiff solid body on the same field scaled by the item multiplier m (0: switched off)
 
 
 def plan(tier, seed):
@@ -301,6 +301,12 @@ def run_problem(case):
                     fl.values = np.asfortranarray(fl.values)
             items = mk_items(f)
             bounds, lc = fem.dof.uniaxial(f, clamped=True, move=0.0, axis=0, sym=sym)
+            if case["extra"] == "overlap":
+                bm_ = bounds["move"]
+                bounds["move-again"] = fem.Boundary(f.fields[0], mask=np.isin(np.arange(f.fields[0].values.shape[0]), bm_.points), skip=tuple(bm_.skip), value=0.0)
+                bounds["move-y"] = fem.Boundary(f.fields[0], mask=np.isin(np.arange(f.fields[0].values.shape[0]), bm_.points), value=0.0)
+                d0_, d1_ = fem.dof.partition(f, bounds)
+                lc = dict(lc, dof0=d0_, dof1=d1_)
             if case["mat"] == "mixed-ThreeField":
                 # prescribed values on the LAST field of the container too (volume ratio of every third cell held at 1.01)
                 fJ = f.fields[2]
@@ -311,6 +317,12 @@ def run_problem(case):
             label = f"moves={seq}/maxiter={maxiter}" + ("" if layout == "C" else "/layout=F")
             for si, mv in enumerate(seq):
                 bounds["move"].update(mv)
+                if case["extra"] == "overlap":
+                    bounds["move-again"].update(mv)
+                    # (move-y: all components of the moved face, the normal one with the same value, the others held at zero)
+                    vy_ = np.zeros((len(bounds["move-y"].points), f.fields[0].dim))
+                    vy_[:, 0] = mv
+                    bounds["move-y"].update(vy_)
                 dof0, dof1 = lc["dof0"], lc["dof1"]
                 ext0 = fem.dof.apply(f, bounds, dof0)
                 # the prescribed values as the boundary objects state them (independent of dof.apply): field offset + unknown
@@ -348,7 +360,7 @@ def run_problem(case):
                 scale = np.maximum(np.abs(ext0), np.abs(x_before[dof0]))
                 if np.abs(xv[dof0] - ext0).max() > 4 * np.finfo(float).eps * max(scale.max(), 1.0):
                     c.bad(sub + "/constraints", "prescribed values not met exactly", float(np.abs(xv[dof0] - ext0).max()), 0)
-                if case["mat"] == "LinearElastic" and case["extra"] in ("none", "pointload", "item-x0", "item-x0.5") and res.iterations != 1:
+                if case["mat"] == "LinearElastic" and case["extra"] in ("none", "pointload", "item-x0", "item-x0.5", "overlap") and res.iterations != 1:
                     c.bad(sub + "/linear", "a linear problem must converge with the first update", res.iterations, 1)
                 # independent residual: fresh items on a copy of the returned field, pre-step committed state
                 xf = res.x.copy()
